@@ -17,8 +17,11 @@ def sepish(t: Any) -> bool:
 
 
 def units(P: Any) -> list[tuple[str, Any]]:
-    """direct children of P with repeated fields flattened into placeholder + items"""
+    """direct children of P with repeated fields flattened into placeholder + items; for a CostSpec the children of its
+    cost (braces + components), because every CostSpec accessor edits the component list"""
     out = []
+    if isinstance(P, M.CostSpec):
+        P = P.raw_cost
     for slot, ch in tree.children(P):
         if isinstance(ch, R.Repeated):
             out.append((slot + '#ph', ch.placeholder))
@@ -30,6 +33,8 @@ def units(P: Any) -> list[tuple[str, Any]]:
 
 
 def declared_separators(P: Any, slot: str) -> set[str]:
+    if isinstance(P, M.CostSpec):
+        P = P.raw_cost
     f = tree.class_fields(type(P)).get(slot.split('#')[0])
     out = set()
     if f is None:
@@ -44,7 +49,8 @@ def declared_separators(P: Any, slot: str) -> set[str]:
 def target_slots(P: Any, op: list) -> set[str]:
     attr = op[2]
     if isinstance(P, M.CostSpec):
-        return {'_cost'}
+        # the component list, and the braces ({} <-> {{}} is the documented effect of the per/total setters)
+        return {'_components', '_left_brace', '_right_brace', '_dbl_left_brace', '_dbl_right_brace'}
     if attr in ('raw_payee', 'raw_narration', 'payee', 'narration'):
         return {'_string1', '_string2'}
     s = ops.slot_of_attr(P, attr)
@@ -129,7 +135,9 @@ class WindowOracle(docexp.Oracle):
             us1.append((slot, u, [(id(t), t.raw_text) for t in ut]))
         pre_by_id = {id(u): (slot, tl) for slot, u, tl in pre['units']}
         post_by_id = {id(u): (slot, tl) for slot, u, tl in us1}
-        vlevel = value_level(op)
+        # CostSpec accessors edit inside a component (the number of an amount, the currency of a compound amount): the
+        # component that holds the edited part is "the child itself"
+        vlevel = value_level(op) or isinstance(P, M.CostSpec)
         allowed0: set[int] = set()
         allowed1: set[int] = set()
         changed_survivors = 0
@@ -159,6 +167,17 @@ class WindowOracle(docexp.Oracle):
                 else:
                     res.fail(f'C03/sibling-appeared[{sig}]', where + f'new child in untouched slot {slot}')
                     return
+        # 3b. a replacement keeps its place: exactly one unit went and one came in the same slot -> same rank among the units
+        gone = [(slot, u) for slot, u, _ in pre['units'] if id(u) not in post_by_id]
+        come = [(slot, u) for slot, u, _ in us1 if id(u) not in pre_by_id]
+        if len(gone) == 1 and len(come) == 1 and gone[0][0] == come[0][0] and op[0] == 'setnode' and op[3] is not None \
+                and type(gone[0][1]) is type(come[0][1]):       # (a cost amount turning into a compound amount is a re-shape)
+            seq0 = [id(u) if id(u) != id(gone[0][1]) else 'X' for _, u, _ in pre['units']]
+            seq1 = [id(u) if id(u) != id(come[0][1]) else 'X' for _, u, _ in us1]
+            if seq0 != seq1:
+                res.fail(f'C03/replaced-child-moved[{sig}]', where + f'the new {type(come[0][1]).__name__} does not stand where the replaced '
+                         f'{type(gone[0][1]).__name__} stood (rank {seq0.index("X")} -> {seq1.index("X")} among the children)')
+                return
         # 4. window: tokens that disappeared / appeared / changed text; survivors keep their relative order
         ids0 = {id(t): x for t, x in toks0}
         ids1 = {id(t): x for t, x in toks1}
